@@ -24,6 +24,31 @@ KNOWN_FILE = ROOT / "known_findings.json"
 NPROC = int(os.environ.get("VERIF_NPROC", "16"))
 
 
+_WORKDIRS = []
+
+
+def workdir(tag):
+    """A scratch directory of this worker process whose *paths are reused* from case to case with new contents
+    (code that remembers file contents by path then shows); emptied on every call, removed when the unit ends."""
+    import shutil
+    import tempfile
+
+    d = Path(tempfile.gettempdir()) / f"verif_{tag}_{os.getpid()}"
+    if d.exists():
+        shutil.rmtree(d, ignore_errors=True)
+    d.mkdir(parents=True, exist_ok=True)
+    if d not in _WORKDIRS:
+        _WORKDIRS.append(d)
+    return d
+
+
+def _cleanup_workdirs():
+    import shutil
+
+    for d in _WORKDIRS:
+        shutil.rmtree(d, ignore_errors=True)
+
+
 class Mismatch(Exception):
     """The code under test disagrees with the oracle.  `kind` is a stable root-cause key."""
 
@@ -277,9 +302,15 @@ def _worker(args):
         rec = Rec(prop_id, unit.get("name", "?"), mod)
         try:
             if unit.get("kind") == "replay":
-                _replay_unit(mod, unit, rec)
+                try:
+                    _replay_unit(mod, unit, rec)
+                finally:
+                    _cleanup_workdirs()
             else:
-                mod.run_unit(unit, seed, rec, tier)
+                try:
+                    mod.run_unit(unit, seed, rec, tier)
+                finally:
+                    _cleanup_workdirs()
         except Mismatch as m:  # a unit may raise directly (enumerations)
             case = getattr(m, "case", None)
             f = rec.match_known(m, case)
